@@ -100,7 +100,7 @@ theorem desGraph_merge (outer : Scopes) : ∀ g : GraphP, wfGraph outer (mergeGr
     rw [nodeOutNames_mergeNodes] at hw' hwn'
     -- the unmerged graph satisfies everything the closed form needs
     have hw0 : GraphWF0 inits inputs outputs vis (nodeOutNames nodes) := by
-      refine ⟨hw'.nodupNames, hw'.nonempty, hw'.nodupInit, hw'.wfIn, ?_, ?_, ?_, hw'.wfInit⟩
+      refine ⟨hw'.nodupNames, hw'.nonempty, hw'.nodupInit, hw'.wfIn, ?_, ?_, hw'.wfInit⟩
       · rw [List.all_eq_true]
         intro vo hvo
         exact wfVI_of_merge _ _ _ _ (List.all_eq_true.1 hw'.wfOut _ (List.mem_map_of_mem hvo))
@@ -116,8 +116,6 @@ theorem desGraph_merge (outer : Scopes) : ∀ g : GraphP, wfGraph outer (mergeGr
           cases hwf : wfVI vi with
           | true => rfl
           | false => simp [hwf] at this
-      · have := hw'.nodupOut
-        rwa [map_mergeOutVI_names] at this
     -- names of the tables
     have hN : ∀ V, tableNames (tblPre inits inputs V quant (nodeOutNames nodes))
         = scopeNames (inputs.map (·.name)) (inits.map (·.name)) (nodeOutNames nodes) :=
@@ -167,10 +165,10 @@ theorem desGraph_merge (outer : Scopes) : ∀ g : GraphP, wfGraph outer (mergeGr
     have n3 := desNodes_indep outer vis quant _ (tblPre inits inputs vis quant (nodeOutNames nodes))
       (by rw [hN, hN]) nodes xs hres n2
     -- the closed forms
-    obtain ⟨idxs, c1, c2⟩ := graph_des_closed outer name doc nodes inits inputs outputs vis quant md hw0 xs n3
+    obtain ⟨idxs, c1, c2⟩ := graph_des_closedAll outer name doc nodes inits inputs outputs vis quant md hw0 xs n3
     obtain ⟨idxs', c1', c2'⟩ := graph_des_closed outer name doc (mergeNodes nodes) inits inputs
       (mOutputs inits inputs outputs vis (nodeOutNames nodes))
-      (mVis inits inputs outputs vis (nodeOutNames nodes)) quant md hw''.to0 xs
+      (mVis inits inputs outputs vis (nodeOutNames nodes)) quant md hw''.to0 hw''.consOut xs
       (by rw [nodeOutNames_mergeNodes]; exact n0)
     have hidx : idxs' = idxs := map_some_inj (c2'.trans c2.symm)
     rw [c1, c1', hidx, nodeOutNames_mergeNodes, ← tblFinal_merge hw']
